@@ -366,6 +366,16 @@ def part_c(ctx, cov, dist, rng, repo, only=None):
         return
     transports = {d.id: d.name for d in pool.descs if d.rcmd}
     luser = pwd.getpwuid(1000).pw_name
+    # which form of hostlist_register_rcmd is this?  (F09-2BR repaired = the registered names are expanded
+    # like the target list: `u9@f[1-2]-[0-1]` makes f1-0 a u9 host)
+    margs = ["model", "unchanged"]
+    pr = preload.run_pdsh(pool, exe, ["-R", "t1", "-w", "u9@f[1-2]-[0-1]", "true"], moddir_env=pool.dir,
+                          fake_dir=pool.dir, dirlist=["r01.so"], argv0=exe)
+    plog = [l.split() for l in pr["log"] if l.startswith("rcmd ")]
+    if plog and all(w[5] == hx("u9") for w in plog):
+        margs.append("reexpand")
+        ctx.log("hostlist_register_rcmd re-expands the names (F09-2BR repaired): model runs as `reexpand`")
+    dist["reg_variant"] = " ".join(margs)
     n = 3000 if ctx.quick() else 20000
     recs = []
     for c in ((gen_reg_case(rng, transports) for _ in range(n)) if only is None else only):
@@ -377,7 +387,7 @@ def part_c(ctx, cov, dist, rng, repo, only=None):
         line, targets = reg_line(c, transports, luser)
         recs.append((c, r, line, targets))
     text = "".join(l + "\n" for _, _, l, _ in recs)
-    ml = ctx.model("rcmd", text, args=["model", "unchanged"])
+    ml = ctx.model("rcmd", text, args=margs)
     sl = ctx.model("rcmd", text, args=["spec"])
     distinct = set()
     for (c, r, line, targets), m, s in zip(recs, ml, sl):
@@ -418,7 +428,8 @@ def part_c(ctx, cov, dist, rng, repo, only=None):
         if len(cov["samples"]) < 5 and annotated >= 2 and len(targets) <= 6:
             cov["samples"].append({"case": case, "observed": obs, "spec": s})
         if obs != s and not (s == "ok" and not log):
-            two = any(w.count("[") >= 2 and ("@" in w or ":" in w) for w in c["words"])
+            # the known-finding class exists only in the code that registers first-level names
+            two = "reexpand" not in margs and any(w.count("[") >= 2 and ("@" in w or ":" in w) for w in c["words"])
             sig = "reg:two-bracket-annotated" if two else "reg:mismatch"
             dist["offenders"][sig] = dist["offenders"].get(sig, 0) + 1
             ctx.offender(sig, "connections differ from the specification: observed `%s`, specified `%s` (type|host|user|rank)" % (
